@@ -326,6 +326,10 @@ def run(M, rec, tier, seed, k, n):
     rng = random.Random(seed * 1000 + k + 1000)
     g = G.NetGen(rng)
     sh = W.shapes_cycle()
+    from vf import batched
+
+    # node equations evaluated for K nodes / instants at once: a column never depends on another one
+    batched.batched_primitives(M, rec, rng, PROP, 300 if tier == "quick" else 3000, which=batched.NODE_PRIMS)
     for it in range(90 if tier == "quick" else 700):
         shape = next(sh)
         desc = g.all_kinds_network() if it % 6 == 0 else g.network(shape)[1]
